@@ -176,6 +176,9 @@ def replay_qasm(n, ops, outcomes):
             o = outcomes[k]
             k += 1
             st2, w = (project if name == "measure" else reset_branch)(st, a, o)
+            if st2 is None and name == "reset":
+                # the discarded outcome of a reset is not observable: a draw at the very edge of [0,1) may name the empty branch
+                st2, w = reset_branch(st, a, 1 - o)
             if st2 is None:
                 raise QasmError("recorded outcome %d of %s q[%d] is impossible in the replayed state" % (o, name, a))
             st = st2
